@@ -134,6 +134,9 @@ struct gauss_seidel {
     }
 
     private:
+#ifdef AMGCL_VERIF
+        friend struct amgcl::verif::access;
+#endif
         static int num_threads() {
 #ifdef _OPENMP
             return omp_get_max_threads();
@@ -329,6 +332,9 @@ struct gauss_seidel {
                             ptrdiff_t i   = ord[tid][r];
                             ptrdiff_t beg = ptr[tid][r];
                             ptrdiff_t end = ptr[tid][r+1];
+#ifdef AMGCL_VERIF
+                            AMGCL_VERIF_EVENT("gs.row", this, tid, &t - &tasks[tid][0], i, 0);
+#endif
 
                             value_type D = math::identity<value_type>();
                             rhs_type X;
@@ -345,6 +351,9 @@ struct gauss_seidel {
                             }
 
                             x[i] = math::inverse(D) * X;
+#ifdef AMGCL_VERIF
+                            AMGCL_VERIF_EVENT("gs.row", this, tid, &t - &tasks[tid][0], i, 1);
+#endif
                         }
 
                         // each task corresponds to a level, so we need
